@@ -255,17 +255,31 @@ func HarnessC07_encode() {
 	}
 	s := ndStr(n, "print")
 	vAssume(c07Unknown(s))
-	enc := map[string]any{"$encode": "json"}
-	switch ndChoice(3) {
+	var enc any
+	em := map[string]any{"$encode": "json"}
+	enc = em
+	switch ndChoice(7) {
 	case 0:
-		enc["x"] = s
+		em["x"] = s
 	case 1:
 		for _, k := range c07EvalKeys {
 			vAssume(s != k)
 		}
-		enc[s] = 1
+		em[s] = 1
+	case 2:
+		em["l"] = []any{1, s}
+	case 3:
+		// the list form of $encode, encoders that produce one string
+		enc = []any{map[string]any{"$encode": "join:,"}, "first", s}
+	case 4:
+		enc = []any{map[string]any{"$encode": "json"}, map[string]any{"inner": s}}
+	case 5:
+		for _, k := range c07EvalKeys {
+			vAssume(s != k)
+		}
+		enc = []any{map[string]any{"$encode": "json"}, map[string]any{s: 1}}
 	default:
-		enc["l"] = []any{1, s}
+		enc = []any{map[string]any{"$encode": []any{"tolist:=", "join:,"}}, map[string]any{"b": s}}
 	}
 	tree := map[string]any{"e": enc, "v": 1}
 	vObserve("tree", tree)
